@@ -100,15 +100,15 @@ def step (st : St) (ts : List String) : St × String :=
       let base : St := if fresh then { st with dumpOpts := st.opts, strayPresent := false, damaged := false, srcChanged := false } else st
       let st' := { base with listing := l, expectSame := completed }
       let checks : List (Option String) :=
-        [ manifestMeansComplete l,
+        [ (if resumed && st.damaged then none else manifestMeansComplete l),   -- the harness itself damaged a recorded fragment
           if fresh then recordedIntact l else none,
           if resumed && !st.damaged then committedUntouched st.listing l else none,
-          if completed then finishedDump l else none,
           if resumed && completed && st.opts != st.dumpOpts then some "resume-accepted-changed-options" else none,
           if resumed && completed && st.strayPresent then some "resume-accepted-unexpected-file" else none,
           if resumed && completed && st.damaged then some "resume-accepted-damaged-fragment" else none,
           if resumed && completed && st.srcChanged then some "resume-accepted-changed-source" else none,
-          if fresh && status.head? == some "refused" then some "fresh-dump-refused" else none ]
+          if fresh && status.head? == some "refused" then some "fresh-dump-refused" else none,
+          if completed then finishedDump l else none ]
       match firstSome checks with
       | some m => (st', "reject " ++ m)
       | none => (st', "ok")
